@@ -17,4 +17,13 @@ def run(tier):
     c.assumptions = list(HUB_ASSUMPTIONS)
     c.bounds = {"history_length": "unbounded (1-induction over INV)", "operations_per_query": 1, "remote_skis": 2, "loop_unwind": 64}
     hubstep.run_hub(c, ["H_Hub_Step"], ("C10.",))
+    # ship side of "cancel aborts the pending handshake": the real AbortPendingHandshake in every waiting state
+    import shipstep
+    from shiputil import ship_tape
+    res, meta = lib.run_engine("ship", ["H_Step_C01"], sched="manual", cuts=lib.SHIP_CUTS, loop=64)
+    c.add_run("ship-abort", res, meta)
+    for e, r in (res or {}).items():
+        for v in r["violations"] or []:
+            if v["kind"] == "assert" and v["id"].startswith("C10."):
+                c.handle("ship", e, v, make_tape=ship_tape)
     return c.finish()
